@@ -47,7 +47,12 @@ def build(sc):
     for _b in range(B):
         # "mixedrank": a full-rank member next to rank-deficient ones - the iteration continues inside the null space of the latter
         kind = sc["spectrum"] if sc["spectrum"] != "mixedrank" else ("distinct" if _b == 0 else "rankdef")
-        lam = torch.tensor(eig_structure(kind, n), dtype=torch.float64)
+        if kind == "scalemix":
+            # members of very different magnitude: the absolute breakdown threshold (1e-6) is met by the small member from the first step on,
+            # which must not stop the others
+            lam = torch.tensor(eig_structure("distinct", n), dtype=torch.float64) * (1e-7 if _b == 0 else 1.0)
+        else:
+            lam = torch.tensor(eig_structure(kind, n), dtype=torch.float64)
         v = torch.randn(n, generator=g, dtype=torch.float64)
         Q = torch.eye(n, dtype=torch.float64) - 2 * torch.outer(v, v) / (v @ v)
         mats.append(Q @ torch.diag(lam) @ Q.T)
@@ -142,7 +147,7 @@ def record(sc):
 
 def scenarios(tier, seed):
     sizes = [2, 3, 4, 5, 8, 12, 16, 24, 40, 64]
-    spectra = ["distinct", "pairs", "rankdef", "scalar", "decay", "mixedrank"]
+    spectra = ["distinct", "pairs", "rankdef", "scalar", "decay", "mixedrank", "scalemix"]
     starts = ["random", "mixed", "eigvec", "few"]
     batches = [[], [2], [2, 1]]
     out = []
@@ -159,8 +164,10 @@ def scenarios(tier, seed):
         st, bt, ni = starts[h(4) % 4], batches[h(5) % 3], [1, 1, 3][h(6) % 3]
         if st == "mixed" and not bt and ni == 1:
             ni = 3           # a mixture needs several members or start vectors
-        if sp == "mixedrank" and not bt:
+        if sp in ("mixedrank", "scalemix") and not bt:
             bt = [2]
+        if sp == "scalemix":
+            dt = "f64"
         out.append(dict(id=i, seed=seed * 7919 + i, n=n, spectrum=sp, start=st, batch=bt, ninit=ni, dt=dt))
     return out
 
